@@ -11,7 +11,11 @@
 //   - implementsTbl: which value type has which accessor (AsInt/AsFloat/AsBool/AsString, data.Value)
 //     with exactly the signature the interface of package data demands;
 //   - unchecked: every type assertion without comma-ok on an operand in node/binary_*.go and
-//     node/expression.go, with the `case *data.XValue` arm guarding it (if any).
+//     node/expression.go, with the `case *data.XValue` arm guarding it (if any);
+//   - compareSites: for each of == != < <= > >= <=> the way its node derives its result: the value
+//     returned under the identity shortcut `if lv == rv` (== and != only) and the test applied to the
+//     one call `data.LooseCompare(<left>, <right>)` (`== 0`, `!= 0`, `== -1`, `== -1 || == 0`, `== 1`,
+//     `== 1 || == 0`, or the integer itself with Unordered mapped to 0); anything else is `other`.
 //
 // Anything that does not have the expected syntactic shape becomes an entry of
 // `table.shapeChanged`, which makes the obligations in Proofs/Properties/C03.lean fail.
@@ -700,6 +704,223 @@ func uncheckedIn(repo, base string) []assertion {
 	return res
 }
 
+// ---------------------------------------------------------------- comparison sites
+
+type cmpSite struct{ op, test, identity string }
+
+// why a comparison node was classified `other` (diagnostics only)
+var cmpNotes []string
+
+// operand variables of GetValue: `x, _ := b.Left.GetValue(ctx)` / `b.Right.GetValue(ctx)`
+func operandVars(fn *ast.FuncDecl) (left, right string) {
+	ast.Inspect(fn.Body, func(n ast.Node) bool {
+		as, ok := n.(*ast.AssignStmt)
+		if !ok || len(as.Lhs) != 2 || len(as.Rhs) != 1 {
+			return true
+		}
+		call, ok := as.Rhs[0].(*ast.CallExpr)
+		if !ok {
+			return true
+		}
+		sel, ok := call.Fun.(*ast.SelectorExpr)
+		if !ok || sel.Sel.Name != "GetValue" {
+			return true
+		}
+		_, f, ok := fieldOf(sel.X)
+		id, ok2 := as.Lhs[0].(*ast.Ident)
+		if !ok || !ok2 {
+			return true
+		}
+		switch f {
+		case "Left":
+			left = id.Name
+		case "Right":
+			right = id.Name
+		}
+		return true
+	})
+	return
+}
+
+func isDataCall(e ast.Expr, name string) (*ast.CallExpr, bool) {
+	c, ok := e.(*ast.CallExpr)
+	if !ok {
+		return nil, false
+	}
+	s, ok := c.Fun.(*ast.SelectorExpr)
+	if !ok || !isIdent(s.X, "data") || s.Sel.Name != name {
+		return nil, false
+	}
+	return c, true
+}
+
+func intLit(e ast.Expr) (string, bool) {
+	if u, ok := e.(*ast.UnaryExpr); ok && u.Op == token.SUB {
+		if l, ok := u.X.(*ast.BasicLit); ok && l.Kind == token.INT {
+			return "-" + l.Value, true
+		}
+	}
+	if l, ok := e.(*ast.BasicLit); ok && l.Kind == token.INT {
+		return l.Value, true
+	}
+	return "", false
+}
+
+// analyseCompare classifies how node/<file> GetValue of <recv> derives its result.
+func analyseCompare(repo, op, file, recv string) cmpSite {
+	res := cmpSite{op: op, identity: "none"}
+	bad := func(f string, a ...any) cmpSite {
+		cmpNotes = append(cmpNotes, fmt.Sprintf("%s: %s", file, fmt.Sprintf(f, a...)))
+		res.test = "other"
+		return res
+	}
+	_, f, err := ex.ParseFile(repo, file)
+	if err != nil {
+		return bad("%v", err)
+	}
+	fn := ex.FuncDecl(f, recv, "GetValue")
+	if fn == nil || fn.Body == nil {
+		return bad("%s.GetValue not found", recv)
+	}
+	left, right := operandVars(fn)
+	if left == "" || right == "" {
+		return bad("operand evaluation not recognised")
+	}
+	// is e the helper call on (left, right), or an identifier bound to it?
+	bound := ""
+	isHelper := func(e ast.Expr) bool {
+		if id, ok := e.(*ast.Ident); ok {
+			return bound != "" && id.Name == bound
+		}
+		c, ok := isDataCall(e, "LooseCompare")
+		return ok && len(c.Args) == 2 && isIdent(c.Args[0], left) && isIdent(c.Args[1], right)
+	}
+	// X == k
+	atom := func(e ast.Expr) (string, bool) {
+		if p, ok := e.(*ast.ParenExpr); ok {
+			e = p.X
+		}
+		b, ok := e.(*ast.BinaryExpr)
+		if !ok || !isHelper(b.X) {
+			return "", false
+		}
+		k, ok := intLit(b.Y)
+		if !ok {
+			return "", false
+		}
+		switch b.Op {
+		case token.EQL:
+			return "==" + k, true
+		case token.NEQ:
+			return "!=" + k, true
+		}
+		return "", false
+	}
+	classifyTest := func(e ast.Expr) string {
+		if a, ok := atom(e); ok {
+			switch a {
+			case "==0":
+				return "isEq"
+			case "!=0":
+				return "isNe"
+			case "==-1":
+				return "isLt"
+			case "==1":
+				return "isGt"
+			}
+			return ""
+		}
+		if b, ok := e.(*ast.BinaryExpr); ok && b.Op == token.LOR {
+			x, ok1 := atom(b.X)
+			y, ok2 := atom(b.Y)
+			if ok1 && ok2 && y == "==0" {
+				switch x {
+				case "==-1":
+					return "isLe"
+				case "==1":
+					return "isGe"
+				}
+			}
+		}
+		return ""
+	}
+	unorderedToZero := false
+	nValue := 0
+	for _, st := range fn.Body.List {
+		switch t := st.(type) {
+		case *ast.AssignStmt:
+			// operand evaluation, or `c := data.LooseCompare(l, r)`
+			if len(t.Lhs) == 1 && len(t.Rhs) == 1 && t.Tok == token.DEFINE {
+				if id, ok := t.Lhs[0].(*ast.Ident); ok && bound == "" && isHelper(t.Rhs[0]) {
+					bound = id.Name
+					continue
+				}
+				return bad("unexpected assignment")
+			}
+			if len(t.Lhs) == 2 {
+				continue
+			}
+			return bad("unexpected assignment")
+		case *ast.IfStmt:
+			if t.Init != nil || t.Else != nil || len(t.Body.List) != 1 {
+				return bad("unexpected if statement")
+			}
+			// control propagation: if xCtl != nil { return nil, xCtl }
+			if r, ok := t.Body.List[0].(*ast.ReturnStmt); ok && len(r.Results) == 2 && isIdent(r.Results[0], "nil") {
+				continue
+			}
+			c, ok := t.Cond.(*ast.BinaryExpr)
+			if !ok || c.Op != token.EQL {
+				return bad("unexpected condition")
+			}
+			// identity shortcut: if lv == rv { return data.NewBoolValue(<const>), nil }
+			if isIdent(c.X, left) && isIdent(c.Y, right) {
+				r, ok := t.Body.List[0].(*ast.ReturnStmt)
+				if !ok || len(r.Results) != 2 || !isIdent(r.Results[1], "nil") {
+					return bad("identity shortcut does not return a value")
+				}
+				call, ok := isDataCall(r.Results[0], "NewBoolValue")
+				if !ok || len(call.Args) != 1 || !(isIdent(call.Args[0], "true") || isIdent(call.Args[0], "false")) {
+					return bad("identity shortcut returns something else than a constant")
+				}
+				res.identity = "some " + call.Args[0].(*ast.Ident).Name
+				continue
+			}
+			// if c == data.Unordered { c = 0 }
+			if bound != "" && isIdent(c.X, bound) {
+				if s, ok := c.Y.(*ast.SelectorExpr); ok && isIdent(s.X, "data") && s.Sel.Name == "Unordered" {
+					if as, ok := t.Body.List[0].(*ast.AssignStmt); ok && as.Tok == token.ASSIGN && len(as.Lhs) == 1 &&
+						isIdent(as.Lhs[0], bound) && len(as.Rhs) == 1 && isLit(as.Rhs[0], token.INT, "0") {
+						unorderedToZero = true
+						continue
+					}
+				}
+			}
+			return bad("unexpected if statement")
+		case *ast.ReturnStmt:
+			if len(t.Results) != 2 || !isIdent(t.Results[1], "nil") {
+				return bad("unexpected return")
+			}
+			nValue++
+			if call, ok := isDataCall(t.Results[0], "NewBoolValue"); ok && len(call.Args) == 1 {
+				res.test = classifyTest(call.Args[0])
+			} else if call, ok := isDataCall(t.Results[0], "NewIntValue"); ok && len(call.Args) == 1 &&
+				bound != "" && isIdent(call.Args[0], bound) && unorderedToZero {
+				res.test = "toInt"
+			}
+			if res.test == "" {
+				return bad("result is not a test of data.LooseCompare(%s, %s)", left, right)
+			}
+		default:
+			return bad("unexpected statement %T", st)
+		}
+	}
+	if nValue != 1 {
+		return bad("%d value returns", nValue)
+	}
+	return res
+}
+
 // ---------------------------------------------------------------- output
 
 func main() {
@@ -738,6 +959,16 @@ func main() {
 	var un []assertion
 	for _, f := range opFiles {
 		un = append(un, uncheckedIn(a.Repo, f)...)
+	}
+
+	cmps := []cmpSite{
+		analyseCompare(a.Repo, "eq", "node/binary_eq.go", "BinaryEq"),
+		analyseCompare(a.Repo, "ne", "node/binary_ne.go", "BinaryNe"),
+		analyseCompare(a.Repo, "lt", "node/binary_lt.go", "BinaryLt"),
+		analyseCompare(a.Repo, "le", "node/binary_le.go", "BinaryLe"),
+		analyseCompare(a.Repo, "gt", "node/binary_gt.go", "BinaryGt"),
+		analyseCompare(a.Repo, "ge", "node/binary_ge.go", "BinaryGe"),
+		analyseCompare(a.Repo, "cmp", "node/binary_spaceship.go", "BinarySpaceship"),
 	}
 
 	// implements table
@@ -816,11 +1047,27 @@ func main() {
 		}
 		fmt.Fprintf(&sb, "  { file := %s, expr := %s, iface := .%s, guard := %s }%s\n", ex.LeanString(u.file), ex.LeanString(u.expr), u.iface, g, sep)
 	}
-	sb.WriteString("]\n\nend Generated.C03Truthiness\n")
+	sb.WriteString("]\n\n")
+
+	sb.WriteString("/-- how each comparison node derives its result from `data.LooseCompare` (node/binary_{eq,ne,lt,le,gt,ge,spaceship}.go) -/\n")
+	sb.WriteString("def compareSites : List CmpSite := [\n")
+	for i, c := range cmps {
+		sep := ","
+		if i == len(cmps)-1 {
+			sep = ""
+		}
+		fmt.Fprintf(&sb, "  { op := .%s, test := .%s, identity := %s }%s\n", c.op, c.test, c.identity, sep)
+	}
+	sb.WriteString("]\n\n")
+	var cn []string
+	for _, n := range cmpNotes {
+		cn = append(cn, ex.LeanString(n))
+	}
+	sb.WriteString("/-- why a comparison node was classified `other` -/\ndef compareNotes : List String := [" + strings.Join(cn, ", ") + "]\n\nend Generated.C03Truthiness\n")
 
 	if err := ex.WriteIfChanged(a.Out, "C03Truthiness.lean", sb.String()); err != nil {
 		fmt.Fprintln(os.Stderr, err)
 		os.Exit(1)
 	}
-	fmt.Printf("C03Truthiness: %d sites, %d unchecked operand assertions, %d shapeChanged\n", len(sites), len(un), len(shape))
+	fmt.Printf("C03Truthiness: %d sites, %d unchecked operand assertions, %d comparison sites, %d shapeChanged\n", len(sites), len(un), len(cmps), len(shape))
 }
